@@ -257,6 +257,8 @@ def tla_tuples(out, head):
     list of raw strings of the elements after the head (split at top level)."""
     res = []
     i = 0
+    # TLC pretty-prints long tuples over several lines as `<< "HEAD",\n   ...`
+    out = re.sub(r'<<\s+"', '<<"', out)
     needle = '<<"%s"' % head
     while True:
         j = out.find(needle, i)
